@@ -75,6 +75,23 @@ TCMsg(t, cl) ==
      ns |-> <<[n |-> <<LB>>, t |-> t, c |-> cl, ttl |-> <<0, 0>>, rd |-> <<>>]>>,
      ar |-> <<[n |-> <<>>, t |-> t, c |-> cl, ttl |-> <<0, 32768>>, rd |-> RData(11, 2)]>>]
 
+(* names that are equal under some folding and are NOT the same name on the wire: RFC 1035 compares names without regard to
+   ASCII case when it LOOKS THEM UP, a codec carries the octets it was given (2.3.3: "the original case should be preserved").
+   A record's owner name differs from the question's only in case / only in octets above 127 *)
+FoldPairs == { << <<119, 112, 97, 100>>, <<87, 80, 65, 68>> >>,                       \* wpad / WPAD
+               << <<70, 105, 108, 101>>, <<102, 105, 108, 101>> >>,                     \* File / file
+               << <<128, 46 + 1, 120>>, <<255, 46 + 1, 120>> >>,                        \* two labels that are not UTF-8, differing in one octet
+               << <<195, 169>>, <<195, 137>> >> }                                      \* e-acute / E-acute in UTF-8
+FoldMsg(pr, v) ==
+    LET q == pr[1]  r == pr[2]
+        qn == IF v = 1 THEN <<q, LB>> ELSE <<q>>
+        rn == IF v = 1 THEN <<r, LB>> ELSE <<r>> IN
+    [id |-> 4242 + v, flags |-> 32768,
+     qd |-> <<[n |-> qn, t |-> 1, c |-> 1]>>,
+     an |-> <<[n |-> rn, t |-> 1, c |-> 1, ttl |-> <<0, 30>>, rd |-> RData(4, 1)], [n |-> qn, t |-> 1, c |-> 1, ttl |-> <<0, 30>>, rd |-> RData(4, 2)]>>,
+     ns |-> <<[n |-> rn, t |-> 2, c |-> 1, ttl |-> <<0, 0>>, rd |-> <<>>]>>,
+     ar |-> <<[n |-> rn, t |-> 28, c |-> 1, ttl |-> <<0, 1>>, rd |-> RData(16, 3)]>>]
+
 (* the specification's own laws, checked for every emitted message (a failure is a broken oracle, not a verdict) *)
 SelfCheck(m, plain, packed) ==
     LET dp == LLMNRDecode(plain)  dc == LLMNRDecode(packed) IN
@@ -161,6 +178,12 @@ Init ==
             /\ c = <<"typeclass", t, cl>>
             /\ SelfCheck(m, plain, packed)
             /\ Emit([k |-> "msg", shape |-> <<-1, t, cl>>, m |-> m, plain |-> plain, packed |-> packed])
+    \/ /\ "typeclass" \in Kinds
+       /\ \E pr \in FoldPairs, v \in {1, 2} :
+            LET m == FoldMsg(pr, v)  plain == LLMNREncode(m)  packed == LLMNREncodeC(m) IN
+            /\ c = <<"fold", pr, v>>
+            /\ SelfCheck(m, plain, packed)
+            /\ Emit([k |-> "msg", shape |-> <<-2, pr[1][1], v>>, m |-> m, plain |-> plain, packed |-> packed])
     \/ /\ "name" \in Kinds
        /\ \E n \in Names :
             /\ c = <<"name", n>>
